@@ -10,17 +10,27 @@ class Unsupported(Exception):
     pass
 
 
+def _pattern_ok(p):
+    stack = [p]
+    seen = set()
+    while stack:
+        x = stack.pop()
+        i = x.get_id()
+        if i in seen:
+            continue
+        seen.add(i)
+        if z3.is_quantifier(x):
+            return False
+        if z3.is_app(x) and x.decl().kind() in (z3.Z3_OP_ITE, z3.Z3_OP_AND, z3.Z3_OP_OR, z3.Z3_OP_NOT, z3.Z3_OP_IMPLIES):
+            return False
+        stack.extend(x.children())
+    return True
+
+
 def forall(vs, body, patterns=None):
     """ForAll with patterns when they are valid patterns (selects over lambdas reduce to ite and are not)"""
     if patterns:
-        ok = []
-        for p in patterns:
-            try:
-                z3.ForAll(vs, z3.BoolVal(True) == z3.BoolVal(True), patterns=[p])
-                q = z3.ForAll(vs, body, patterns=[p])
-                ok.append(p)
-            except z3.Z3Exception:
-                pass
+        ok = [p for p in patterns if _pattern_ok(p)]
         if ok:
             try:
                 return z3.ForAll(vs, body, patterns=ok)
